@@ -6,6 +6,7 @@ package main
 import (
 	"bytes"
 	"context"
+	"encoding/binary"
 	"encoding/json"
 	"fmt"
 	"sort"
@@ -673,6 +674,50 @@ func scnPathSel(rep *Report, rng *Rng, tier string, outdir string) {
 						rep.Count(prop, string(key), len(splitPath(p)) >= 1, map[string]interface{}{"path": p, "target": target, "matchpath": mp})
 					}
 					rep.Dist("C03", fmt.Sprintf("target=%d matchpath=%v", target, mp))
+				}
+			}
+		}
+	}
+	// absent names whose hash selects the slot of a member they resemble (the member with part of its bucket prefix in
+	// front; a proper suffix of the member), found by search: the walk reaches the member's link and only the final name
+	// comparison keeps them apart
+	for _, f := range []int{8, 16, 256} {
+		lg := 0
+		for 1<<uint(lg) < f {
+			lg++
+		}
+		pad := len(fmt.Sprintf("%X", f-1))
+		slot := func(n string) int { return int(binary.BigEndian.Uint64(mhash(n)) >> uint(64-lg)) }
+		found := 0
+		for c := 0; c < 60000 && found < 4; c++ {
+			m := fmt.Sprintf("chapter-%d.txt", c)
+			b := slot(m)
+			k := m[1+(c%5):]
+			if found%2 == 0 {
+				j := 1 + (found/2)%pad
+				k = fmt.Sprintf("%0*X", pad, b)[pad-j:] + m
+			}
+			if slot(k) != b {
+				continue
+			}
+			kids := []*PNode{{ID: 2, Name: m, File: true, Size: 7}}
+			for x := 0; len(kids) < 3 && x < 1000; x++ {
+				o := fmt.Sprintf("other-%d-%d", c, x)
+				if so := slot(o); so != b && (len(kids) == 1 || so != slot(kids[1].Name)) {
+					kids = append(kids, &PNode{ID: 2 + len(kids), Name: o, File: true, Size: 2})
+				}
+			}
+			found++
+			tree := &PNode{ID: 1, Fanout: f, Children: []*PNode{{ID: 10, Name: "d", Fanout: f, Children: kids}}}
+			for _, p := range []string{"/d/" + k, "/d/" + m, "/d/" + k + "x"} {
+				for target := 0; target < 3; target++ {
+					in := PathSelInput{Tree: tree, Path: p, Target: target}
+					runPathSelInput(rep, in, cf)
+					key, _ := json.Marshal([]interface{}{"alias", f, c, p, target})
+					for _, prop := range []string{"C03", "C05", "C06", "C20"} {
+						rep.Count(prop, string(key), true, map[string]interface{}{"path": p, "target": target})
+					}
+					rep.Dist("C03", "slot-aliasing")
 				}
 			}
 		}
